@@ -50,7 +50,7 @@ CHECKS = {
         technique=SIM + "; differential batch call vs. loop of single calls on lock-step worlds",
         ref="DESIGN.md section 5, C08"),
     "C09": dict(
-        text="Generated world histories interleaved with lock episodes: nested queries through plain and registered filters released by generated paths and orders, the lock of a Q-variant's returned query, the lock held during removal-event delivery, and the full nesting limit. Under every lock the complete table of ID-based structural entry points (27 entries plus no-effect forms, arguments legal in the current state) is walked: each call must panic with the locked-world message and leave the hook's digest of the hidden state byte-identical; lock-bit count must equal the number of open queries after every open/release; afterwards the refused call is repeated and must succeed.",
+        text="ID-based part: generated world histories interleaved with lock episodes: nested queries through plain and registered filters released by generated paths and orders, the lock of a Q-variant's returned query, the lock held during removal-event delivery, and the full nesting limit. Under every lock the complete table of ID-based structural entry points (27 entries plus no-effect forms, arguments legal in the current state) is walked: each call must panic with the locked-world message and leave the hook's digest of the hidden state byte-identical; lock-bit count must equal the number of open queries after every open/release; afterwards the refused call is repeated and must succeed. Generic part (second test function): for generated adapter, lock source (plain query, generic filter query, query of a generic NewBatchQ), nesting depth and world fill the complete table of 24-27 generic structural entry points is called with legal arguments under lock and again after release.",
         note="The entry-point table is enumerated completely per episode; world states, lock shapes and release orders are sampled. World.Set is not in the statement's list and is not asserted (DESIGN 4.10).",
         technique=SIM + "; fault enumeration of all structural entry points under generated lock shapes; hidden-state digest before/after",
         ref="DESIGN.md section 5, C09"),
@@ -89,6 +89,11 @@ CHECKS = {
         note="Continuations contain creations and single removals only, as the statement says; handles issued before the source world's last reset are not asked about (DESIGN 4.4).",
         technique="stateful property-based testing (rapid): round trip (dump -> JSON -> load) + differential continuation on source and loaded world",
         ref="DESIGN.md section 5, C17"),
+    "C18": dict(
+        text="Generated Go code instantiates MapN/FilterN/QueryN for every arity 0-12 in natural order, reversed order and with the relation type at a varying position (37 instantiations), plus Map and Exchange; generated histories drive one world through the generic calls and a lock-step world through the ID-based calls documented as equivalent, and both are compared completely after every operation. MapN.Get and QueryN.Get must be pointer-identical, position by position, to World.Get of the declared type. Generated builder scripts (Optional/With/Without/Exclusive/WithRelation before and between queries, Register/Unregister, call-time targets, two open queries) are compared with the equivalent core filter built from the builder state at query-build time.",
+        note="Modifying a filter builder while a query built from it is still open is not generated (queries are exhausted before the builder is touched again, except the two-open-queries step).",
+        technique="differential property-based testing (rapid): generic API vs. documented ID-based equivalent on lock-step worlds; generated adapters for all arities",
+        ref="DESIGN.md section 5, C18"),
     "C20": dict(
         text="Generated Add/Remove/Get/Has sequences over 4 static resource types through all three access styles and up to the limit of dynamic ones, interleaved with component registrations, entity operations, world locks and Reset, with illegal Add-present/Remove-absent injected; after every operation every registered resource is read through every accessor and compared with a map model (exact pointer identity, nil when absent, dense independent IDs).",
         note="Resource type registration under lock is not asserted to panic (DESIGN 4.14).",
